@@ -332,6 +332,26 @@ fn check(args: &[String]) -> i32 {
         let mut pagg = Aggregate::default();
         for r in readers {
             let (s, st) = r.join().unwrap();
+            let code = st.as_ref().ok().and_then(|s| s.code());
+            if code == Some(alloc::TRIP_EXIT_CODE) {
+                // the allocation tripwire fired inside this worker: a verdict, not a harness error
+                if let Some(line) = s.lines().rev().find(|l| l.contains("alloc_tripwire")) {
+                    if let Ok(v) = serde_json::from_str::<Value>(line) {
+                        let case = &v["alloc_tripwire"];
+                        let idx = case["case"].as_str().and_then(|c| c.strip_prefix("idx")).and_then(|c| c.parse::<u64>().ok()).unwrap_or(0);
+                        pagg.violations.push(Violation {
+                            property: id.clone(),
+                            class: "garbage-allocation".into(),
+                            detail: format!("[{profile} build] allocation request of {} bytes while opening prefix {} of a {}-byte archive", v["request_bytes"], case["prefix"], case["len"]),
+                            spec: json!({"from_index": idx, "prefixes": [case["prefix"]]}),
+                            engine: prop.engine().into(),
+                            index: idx,
+                            event_log_digest: 0,
+                        });
+                        continue;
+                    }
+                }
+            }
             let ok = st.map(|s| s.success()).unwrap_or(false);
             let last = s.lines().last().unwrap_or("");
             match serde_json::from_str::<Aggregate>(last) {
